@@ -78,6 +78,9 @@ pub fn base_text(lay: &str, f0: &Value) -> String {
     if lay == "inner_compact" || lay == "inner_generous" {
         return model_structure(f0).iter().map(|e| e.iter().map(|r| styled_rel(r, lay == "inner_generous")).collect::<Vec<_>>().join(" | ")).collect::<Vec<_>>().join(", ");
     }
+    if lay == "spaced_commas" || lay == "comma_on_next_line" {
+        return model_structure(f0).iter().map(|e| e.iter().map(super::rel::canon_rel).collect::<Vec<_>>().join(" | ")).collect::<Vec<_>>().join(if lay == "spaced_commas" { " , " } else { "\n , " });
+    }
     if lay == "long" {
         return model_structure(f0).iter().map(|e| e.iter().map(super::rel::canon_rel).collect::<Vec<_>>().join(" | ")).collect::<Vec<_>>().join(",\n ");
     }
